@@ -11,6 +11,7 @@ mod engine;
 mod gen;
 mod json;
 mod mon;
+mod odd_str;
 mod patch_ref;
 mod props;
 mod rng;
